@@ -75,6 +75,15 @@ func c14(c *Ctx) {
 						if call, ok := cc.(*ssa.Call); ok {
 							if kind := boltOpKind(call); kind != "" {
 								mi.ops = append(mi.ops, boltOp{call, kind, f})
+								return
+							}
+							// any other bbolt API (cursors, ForEach, sequences, nested buckets ...) has no summary here
+							if n := ir.CallName(call); strings.Contains(n, boltPkg+".") {
+								switch n {
+								case boltPkg + ".Open", "(*" + boltPkg + ".DB).Close", "(*" + boltPkg + ".DB).Update", "(*" + boltPkg + ".DB).View":
+								default:
+									c.R.Undecided("R-bucket", c.FK(mi.fn)+"|unmodelled|"+n, c.FK(f), c.P.Pos(call.Pos()), "bbolt operation "+n+" has no summary in this check (keys touched through it cannot be tied to the fan id): isolation is not decided")
+								}
 							}
 						}
 					})
